@@ -63,14 +63,110 @@ def gen_rle(ctx):
         except Exception:  # noqa
             ctx.notes.append("_rle.pyx: MAX_LEN is not a constant expression (generated as 0)")
             max_pyx = 0
+    sel = selection_shape(ctx)
+    import extract_c04
+    state = extract_c04.module_state([SRC / "compression" / "rle.py"])
     ctx.write_generated(
         "Rle",
         "namespace PsdVerif.Generated.Rle\n"
         f"/-- `MAX_LEN` in compression/rle.py -/\ndef maxLenPy : Nat := {max_py}\n"
         f"/-- `MAX_LEN` in compression/_rle.pyx (unsigned char) -/\ndef maxLenPyx : Nat := {max_pyx}\n"
+        "/-- The statement of compression/__init__.py that binds `rle_impl`, from the AST: number of such\n"
+        "statements, modules the `try` body imports as `rle_impl`, exception classes caught, modules the handler\n"
+        "imports as `rle_impl`, statements of body / handler that are not that import, `else`/`finally` statements,\n"
+        "and the names the handler READS that no earlier module-level statement (nor the handler itself, nor\n"
+        "builtins) binds - a NameError in exactly the configuration in which the fallback runs. -/\n"
+        f"def selStatements : Nat := {sel['statements']}\n"
+        f"def selTryImports : List String := [{', '.join(lean_str(x) for x in sel['try_imports'])}]\n"
+        f"def selCatches : List String := [{', '.join(lean_str(x) for x in sel['catches'])}]\n"
+        f"def selHandlerImports : List String := [{', '.join(lean_str(x) for x in sel['handler_imports'])}]\n"
+        f"def selOtherStatements : Nat := {sel['other']}\n"
+        f"def selUnboundInHandler : List String := [{', '.join(lean_str(x) for x in sel['unbound'])}]\n"
+        "/-- everything in rle.py through which one call could influence a later one (`global` declarations,\n"
+        "module-level mutable objects read by a function, memoising decorators, mutable defaults) -/\n"
+        f"def rleModuleState : List String := [{', '.join(lean_str(x) for x in state)}]\n"
         "end PsdVerif.Generated.Rle\n",
     )
-    return {"maxLenPy": max_py, "maxLenPyx": max_pyx}
+    return {"maxLenPy": max_py, "maxLenPyx": max_pyx, "selection": sel, "module_state": state}
+
+
+def _bound_names(stmt):
+    """names a module-level statement binds (assignments, imports, defs, with/for targets), recursively"""
+    out = set()
+    for n in ast.walk(stmt):
+        if isinstance(n, (ast.Import, ast.ImportFrom)):
+            for a in n.names:
+                out.add((a.asname or a.name).split(".")[0])
+        elif isinstance(n, (ast.FunctionDef, ast.AsyncFunctionDef, ast.ClassDef)):
+            out.add(n.name)
+        elif isinstance(n, ast.Name) and isinstance(n.ctx, ast.Store):
+            out.add(n.id)
+        elif isinstance(n, ast.ExceptHandler) and n.name:
+            out.add(n.name)
+    return out
+
+
+def _binds_rle_impl(stmt):
+    return any(isinstance(n, ast.ImportFrom) and any((a.asname or a.name) == "rle_impl" for a in n.names)
+               or isinstance(n, ast.Import) and any((a.asname or "") == "rle_impl" for a in n.names)
+               or isinstance(n, ast.Name) and isinstance(n.ctx, ast.Store) and n.id == "rle_impl"
+               for n in ast.walk(stmt))
+
+
+def _impl_import(stmt):
+    """`from . import X as rle_impl` -> X, else None"""
+    if isinstance(stmt, ast.ImportFrom) and len(stmt.names) == 1 and stmt.names[0].asname == "rle_impl":
+        return (stmt.module + "." if stmt.module else "") + stmt.names[0].name
+    return None
+
+
+def selection_shape(ctx):
+    """The implementation selection of psd_tools/compression/__init__.py as a table (see Generated/Rle.lean)."""
+    import builtins
+    sel = dict(statements=0, try_imports=[], catches=[], handler_imports=[], other=0, unbound=[])
+    try:
+        tree = ast.parse((SRC / "compression" / "__init__.py").read_text())
+    except Exception as e:  # noqa
+        ctx.notes.append("compression/__init__.py cannot be parsed: %s" % e)
+        return sel
+    before = set(dir(builtins)) | {"__name__", "__file__", "__doc__", "__package__", "__spec__", "__path__", "__loader__"}
+    for stmt in tree.body:
+        if _binds_rle_impl(stmt):
+            sel["statements"] += 1
+            if isinstance(stmt, ast.Try):
+                for s in stmt.body:
+                    m = _impl_import(s)
+                    if m is not None:
+                        sel["try_imports"].append(m)
+                    else:
+                        sel["other"] += 1
+                sel["other"] += len(stmt.orelse) + len(stmt.finalbody)
+                for h in stmt.handlers:
+                    t = h.type
+                    names = [ast.unparse(x) for x in (t.elts if isinstance(t, ast.Tuple) else [t])] if t is not None else ["<bare>"]
+                    sel["catches"] += names
+                    local = set(before)
+                    if h.name:
+                        local.add(h.name)
+                    for s in h.body:
+                        m = _impl_import(s)
+                        if m is not None:
+                            sel["handler_imports"].append(m)
+                        else:
+                            sel["other"] += 1
+                        for n in ast.walk(s):
+                            if isinstance(n, ast.Name) and isinstance(n.ctx, ast.Load) and n.id not in local \
+                                    and n.id not in sel["unbound"]:
+                                sel["unbound"].append(n.id)
+                        local |= _bound_names(s)
+            else:
+                m = _impl_import(stmt)
+                if m is not None:
+                    sel["try_imports"].append(m)
+                else:
+                    sel["other"] += 1
+        before |= _bound_names(stmt)
+    return sel
 
 
 def gen_terms(ctx):
